@@ -143,14 +143,27 @@ Digest(coin, sv, tx, i, script, begin, sigs, amount, ht) ==
 (* from Digest.                                                                *)
 \*  "bch-removes-signatures": FindAndDelete applied on Bitcoin Cash although the
 \*   signature carries SIGHASH_FORKID
+\*  "number-push-pattern": the pattern searched by FindAndDelete is built with the
+\*   shortest push of the blob AS A NUMBER (the one-byte blobs 01..10 become OP_1..OP_16
+\*   and 81 becomes OP_1NEGATE) instead of the length-prefixed push of PushOf
+NumberPushOf(d) == IF Len(d) = 1 /\ d[1] >= 1 /\ d[1] <= 16 THEN <<80 + d[1]>>
+                   ELSE IF d = <<129>> THEN <<79>>
+                   ELSE PushOf(d)
 Deviations(coin, sv, tx, i, script, begin, sigs, amount, ht) ==
     LET sc0 == ScriptCode(script, begin)
         right == Digest(coin, sv, tx, i, script, begin, sigs, amount, ht)
-        cand == IF coin = "BCH" /\ sv = "base" /\ HasForkIdBit(ht)
-                THEN << [name |-> "bch-removes-signatures",
-                         d |-> Bip143Digest(HashFn(coin), tx, i, DropSignatures(sc0, sigs), amount,
-                                            HtField(coin, ht), ht)] >>
-                ELSE <<>>
+        scN == FoldLeft(LAMBDA s, sig : FindAndDelete(s, NumberPushOf(sig)), sc0, sigs)
+        cand == (IF coin = "BCH" /\ sv = "base" /\ HasForkIdBit(ht)
+                 THEN << [name |-> "bch-removes-signatures",
+                          d |-> Bip143Digest(HashFn(coin), tx, i, DropSignatures(sc0, sigs), amount,
+                                             HtField(coin, ht), ht)] >>
+                 ELSE <<>>)
+             \o (IF RemovesSignatures(coin, sv) /\ ~(UsesForkId(coin) /\ ~HasForkIdBit(ht))
+                 THEN << [name |-> "number-push-pattern",
+                          d |-> IF Algo(coin, sv) = "legacy"
+                                THEN LegacyDigest(HashFn(coin), tx, i, scN, HtField(coin, ht), ht)
+                                ELSE Bip143Digest(HashFn(coin), tx, i, scN, amount, HtField(coin, ht), ht)] >>
+                 ELSE <<>>)
     IN SelectSeq(cand, LAMBDA c : c.d # right)
 
 ----------------------------------------------------------------------------
